@@ -20,8 +20,9 @@ from vf.core.yp import YAMLPath, YAMLPathException, PathSeparators
 PROPERTY = "C14"
 LEVEL = "exploration"
 RULE = ("every string of length<=L over the alphabet " + repr("./[]()'\"\\ &!=^$%<>~*+-:,ab1") +
-        " (complete), sampled longer strings over it, random unicode strings to length 64, and "
-        "mutations of well-formed paths; x separators {AUTO,DOT,FSLASH} x {escaped, unescaped, str}. "
+        " (complete), sampled longer strings over it, random unicode strings to length 64, "
+        "token-level strings (keywords, operators, stacked signs, Unicode digits and every kind of whitespace inside "
+        "bracket / collector / key templates) and mutations of well-formed paths; x separators {AUTO,DOT,FSLASH} x {escaped, unescaped, str}. "
         "A case (string) is non-trivial when it contains at least one syntactically significant "
         "character and is counted once per distinct string.")
 ASSUMPTIONS = [
@@ -33,8 +34,8 @@ EXHAUSTIVE_NOTE = "all strings of length <= L over the 27-character alphabet, L 
 ALPHABET = "./[]()'\"\\ &!=^$%<>~*+-:,ab1"
 SIGNIFICANT = set(ALPHABET) - set("ab1")
 SEPS = [PathSeparators.AUTO, PathSeparators.DOT, PathSeparators.FSLASH]
-SIZES = {"quick": dict(L=4, longer=60000, rnd=60000, mut=60000),
-         "thorough": dict(L=5, longer=1500000, rnd=800000, mut=1500000)}
+SIZES = {"quick": dict(L=4, longer=60000, rnd=60000, mut=60000, tok=80000),
+         "thorough": dict(L=5, longer=1500000, rnd=800000, mut=1500000, tok=2000000)}
 STEP_A, STEP_B = 80, 400
 
 SEED_PATHS = [
@@ -153,7 +154,9 @@ def mutate(rng, s):
     for _ in range(k):
         x = rng.random()
         pos = rng.randrange(0, len(s) + 1)
-        if x < 0.4:
+        if x < 0.1:
+            s.insert(pos, rng.choice(TOKENS))
+        elif x < 0.4:
             s.insert(pos, rng.choice(ALPHABET))
         elif x < 0.7 and s:
             del s[min(pos, len(s) - 1)]
@@ -162,6 +165,22 @@ def mutate(rng, s):
         else:
             s[pos:pos] = list(rng.choice(SEED_PATHS))
     return "".join(s)
+
+
+# token-level generator: what the character-level enumeration cannot reach within its length bound - words the
+# parser knows (keywords, operators) next to whitespace of every kind, stacked signs, digits int() refuses
+TOKENS = ["-", "+", "--", "+-", "1", "2", "10", "\u00b9", "\u00b2", "\u2460", "\u0661", ":", "a", "b", " ", "\\ ", "\t", "\n", "\r",
+          "\u00a0", "\u2003", "\u3000", "max", "min", "parent", "has_child", "name", "unique", "distinct", "MAX", "Max",
+          "(", ")", "()", "(a)", "!", "=", "==", "!=", "=~", "^", "$", "%", ">", "<", ">=", "<=", "*", "**", ".", "&", "'", '"',
+          "/", "\\", ",", "~", "\u0000", "\ufeff", "\u200b"]
+TEMPLATES = ["[%s]", "a[%s]", "/a[%s]/b", "a.b[%s].c", "[%s][%s]", "(%s)", "(a)+(%s)", "[a%s]", "[.%s]", "%s", "a.%s", "/%s/b",
+             "[!%s]", "&%s", "[&%s]", "[%s:%s]"]
+
+
+def token_string(rng):
+    t = rng.choice(TEMPLATES)
+    parts = tuple("".join(rng.choice(TOKENS) for _ in range(rng.randrange(1, 6))) for _ in range(t.count("%s")))
+    return t % parts
 
 
 def run_shard(ctx):
@@ -195,6 +214,12 @@ def run_shard(ctx):
         probe(ctx, text, steps if i % 50 == 0 else None)
         if i < 1:
             ctx.sample({"text": text})
+    for i in range(sz["tok"] // ctx.nshards):
+        text = token_string(rng)
+        probe(ctx, text, steps if i % 50 == 0 else None)
+        ctx.counters["token_strings"] = ctx.counters.get("token_strings", 0) + 1
+        if i < 1:
+            ctx.sample({"text": text})
     for i in range(sz["mut"] // ctx.nshards):
         text = mutate(rng, rng.choice(SEED_PATHS))
         probe(ctx, text, steps if i % 50 == 0 else None)
@@ -206,7 +231,7 @@ def finish(merged):
     merged["exhaustive"] = True
 
 
-REQUIRED_COUNTERS = ["step_samples", "enumerated"]
+REQUIRED_COUNTERS = ["step_samples", "enumerated", "token_strings"]
 
 
 def replay(w):
